@@ -3,11 +3,13 @@ package lens
 import (
 	"context"
 
+	"github.com/notaryproject/notation-core-go/signature"
 	"github.com/notaryproject/notation-go"
 	"github.com/notaryproject/notation-go/plugin"
 	"github.com/notaryproject/notation-go/verifier"
 	"github.com/notaryproject/notation-go/verifier/trustpolicy"
 	"github.com/notaryproject/notation-go/verifier/truststore"
+	pf "github.com/notaryproject/notation-plugin-framework-go/plugin"
 	"github.com/opencontainers/go-digest"
 	ocispec "github.com/opencontainers/image-spec/specs-go/v1"
 
@@ -117,4 +119,20 @@ func verifyEntry(ctx context.Context, v fullVerifier, entry int64, desc ocispec.
 			notation.BlobVerifierVerifyOptions{SignatureMediaType: format})
 	}
 	return v.Verify(ctx, desc, sig, notation.VerifierVerifyOptions{ArtifactReference: "registry.example/repo@" + desc.Digest.String(), SignatureMediaType: format})
+}
+
+const idPluginName = "identity-plugin"
+
+// identityOnlyPlugin is an installed verification plugin that declares the trusted-identity capability only and
+// answers "success" to it. It owns nothing else: every other validation stays the library's own business, and
+// the plugin's success confers no trust by itself. idPluginAttr is the signed attribute that names it.
+func identityOnlyPlugin() (*world.ScriptedManager, *world.ScriptedPlugin) {
+	sp := &world.ScriptedPlugin{Meta: pf.GetMetadataResponse{Name: idPluginName, Description: "d", Version: "1.0.0", URL: "u", SupportedContractVersions: []string{"1.0"},
+		Capabilities: []pf.Capability{pf.CapabilityTrustedIdentityVerifier}}}
+	sp.Verdicts = map[pf.Capability]*pf.VerificationResult{pf.CapabilityTrustedIdentityVerifier: {Success: true}}
+	return &world.ScriptedManager{Plugins: map[string]pf.Plugin{idPluginName: sp}}, sp
+}
+
+func idPluginAttr() signature.Attribute {
+	return signature.Attribute{Key: "io.cncf.notary.verificationPlugin", Critical: true, Value: idPluginName}
 }
